@@ -141,15 +141,17 @@ def one(tools, W, rng_seed):
             moved = any(rel.startswith('dst/') for rel in ws.maildir_files(r.final))
             if moved != exp['moved']:
                 probs.append('message %s moved although the command %s' % ('was' if moved else 'was not', 'failed' if not exp['moved'] else 'succeeded'))
-        conform = 'skipped'
-        if not exp.get('command'):
-            rq, _, nts = W.request(scen, spec.pats, r, stdin=(spec.kind == 'stdin'))
-            ans = W.verdict([rq])[0]
-            conform, detail = world.compare(scen, r, ans)
-            if conform != 'ok':
-                conform += ': ' + detail[:300]
+        # call-by-call conformance with Model.mainP, `command` conditions included (evaluated inside the run since package p4): every
+        # fork of the trace carries the vector the CHILD handed to execvp and the descriptor it duplicated onto 0 (shim), and
+        # Model.Call.same compares both with the model's `fork argv stdin` (package p14)
+        rq, tr, nts = W.request(scen, spec.pats, r, stdin=(spec.kind == 'stdin'))
+        ans = W.verdict([rq])[0]
+        conform, detail = world.compare(scen, r, ans)
+        if conform != 'ok':
+            conform += ': ' + detail[:300] + (' (trace: %s)' % '; '.join(nts)[:300] if nts else '')
+        nforks = len([l for l in tr if l.startswith('fork ')])
         return {'kind': exp['kind'], 'config': scen.config.replace(scen.root, R)[:500], 'env': exp['env'], 'problems': probs, 'conform': conform,
-                'nargs': len(exp['argv'])}
+                'nargs': len(exp['argv']), 'forks': nforks}
     finally:
         scen.cleanup()
 
@@ -165,7 +167,10 @@ def run(rep):
         'unit harness: a program named vstatus:... is not looked up by execvp(3), the child of the real exec() ends as the name says '
         '(harness/unit/h_expr.c)',
         cmdstatus.SIGNAL_NOTE,
-        'fork/execvp/waitpid are the kernel\'s; the model sees fork and the wait status',
+        'fork/dup2/execvp/waitpid are the kernel\'s; the model\'s call `fork argv s` is tied to util.c by the shim (harness/shim/vshim.c): the child '
+        'of the real binary runs under it up to its exec call and reports the function (execvp), the file, the vector and the descriptor it '
+        'duplicated onto 0 (checked with kcmp(2)); tools/world.py maps exactly `execvp(argv[0], argv)` after `dup2(s, 0)` to `fork s argv`, and '
+        'Model.conform compares vector and descriptor call by call; an injected fork failure runs a ghost child up to its exec call',
         'C13_fd_hygiene / C13_fd_cloexec speak about Model.openFds (the descriptor table as a view of the trace); the tie to the '
         'binary: tools/world.py maps an observed openat / open / fcntl / mkostemp / opendir to the constructors openRd / openExcl / '
         'openPath / dupfd / mkostemp / opendir ONLY if its flags are exactly the close-on-exec form (opendir: FD_CLOEXEC of the '
@@ -181,7 +186,8 @@ def run(rep):
     for r in results:
         kinds[r['kind']] = kinds.get(r['kind'], 0) + 1
         if r['problems']:
-            rep.finding('unlisted', {'kind': r['kind'], 'config': r['config'], 'environment': r['env'], 'what': r['problems'][:5]})
+            rep.finding('unlisted', {'kind': r['kind'], 'config': r['config'], 'environment': r['env'], 'what': r['problems'][:5],
+                                     'conformance_with_Model.mainP': r['conform']})
         elif r['conform'] not in ('ok', 'skipped'):
             corr_bad.append(r)
     # "reads the complete content from offset 0" when the transfer into the temporary file is disturbed (short counts, EINTR, ENOSPC,
@@ -209,6 +215,8 @@ def run(rep):
         'samples': results[:3],
         'kinds': kinds,
         'correspondence_mismatches': len(corr_bad),
+        'forks_conformed': sum(r['forks'] for r in results if r['conform'] == 'ok'),
+        'runs_rejected_by_the_conformance': len([r for r in results if r['conform'] != 'ok']),
         'stdin_under_write_faults': fault_cov,
         'command_status_family': status_cov,
         'stdin_across_action_sequences': seq_cov,
